@@ -399,6 +399,7 @@ type gen struct {
 	startStopBetweenFlush bool
 	sawStart map[int]bool // policies with a start since the last flush
 	polUpdInactive bool
+	tierPlaceholderToReal bool
 }
 
 func (g *gen) push(o op) {
@@ -525,6 +526,38 @@ func (g *gen) directed() {
 	}
 }
 
+// a placeholder tier turning into a real one with the placeholder's own fields: policy p names tier T while T does
+// not exist (T sorts last, after the never-existing tier "ghost" named by q), everything is flushed, then T is
+// created with no order and no default action: T must now move ahead of "ghost" in the endpoint's list.
+func (g *gen) directedTier() {
+	r, u := g.r, g.u
+	if len(u.keys) < 2 || len(u.tiers) < 2 {
+		return
+	}
+	t := 1 + r.intn(len(u.tiers)-1)
+	p := r.intn(len(u.keys))
+	q := (p + 1 + r.intn(len(u.keys)-1)) % len(u.keys)
+	e := r.intn(len(u.eps))
+	g.push(op{kind: opTier, t: t, del: true})
+	pol, cls := genPolicy(r, u)
+	pol.Tier = u.tiers[t]
+	g.push(op{kind: opPol, p: p, pol: pol, typesEq: cls})
+	pol2, cls2 := genPolicy(r, u)
+	pol2.Tier = "ghost"
+	g.push(op{kind: opPol, p: q, pol: pol2, typesEq: cls2})
+	g.push(op{kind: opEp, e: e})
+	if !g.matched[[2]int{p, e}] {
+		g.push(op{kind: opStart, p: p, e: e})
+	}
+	if !g.matched[[2]int{q, e}] {
+		g.push(op{kind: opStart, p: q, e: e})
+	}
+	g.push(op{kind: opInSync})
+	g.push(op{kind: opFlush})
+	g.push(op{kind: opTier, t: t, tier: &model.Tier{}})
+	g.tierPlaceholderToReal = true
+}
+
 // ---------------------------------------------------------------- probes: which variant is this tree?
 
 func f64(f float64) *float64 { return &f }
@@ -568,6 +601,28 @@ func probeLexName() bool {
 	return ts[0].OrderedPolicies[0].Key.Name == "a"
 }
 
+// resetact: does deleting a tier that policies still name reset the kept entry's DefaultAction?
+func probeResetAct() bool {
+	pr := calc.NewPolicyResolver()
+	rec := &recorder{epNum: map[model.EndpointKey]int{}}
+	pr.RegisterCallback(rec)
+	ep := endpoints()[0]
+	k1 := model.PolicyKey{Name: "p1", Kind: "GlobalNetworkPolicy"}
+	pr.OnDatamodelStatus(api.InSync)
+	pr.OnUpdate(api.Update{KVPair: model.KVPair{Key: ep.(model.Key), Value: &model.WorkloadEndpoint{}}})
+	pr.OnUpdate(api.Update{KVPair: model.KVPair{Key: model.TierKey{Name: "t"}, Value: &model.Tier{Order: f64(1), DefaultAction: "Pass"}}})
+	pr.OnUpdate(api.Update{KVPair: model.KVPair{Key: k1, Value: &model.Policy{Tier: "t", Order: f64(1)}}})
+	pr.OnPolicyMatch(k1, ep)
+	pr.Flush()
+	pr.OnUpdate(api.Update{KVPair: model.KVPair{Key: model.TierKey{Name: "t"}}})
+	rec.cur = nil
+	pr.Flush()
+	if len(rec.cur) != 1 || len(rec.cur[0].tiers) != 1 {
+		panic("probeResetAct: unexpected shape")
+	}
+	return rec.cur[0].tiers[0].DefaultAction == ""
+}
+
 // ---------------------------------------------------------------- main
 
 func main() {
@@ -578,8 +633,8 @@ func main() {
 	log.SetOutput(os.Stderr)
 	r := &rng{s: *seed}
 	enc := json.NewEncoder(os.Stdout)
-	fixed, lexname := probeFixed(), probeLexName()
-	_ = enc.Encode(map[string]any{"stats": map[string]any{"probe_discard_pending_on_last_match_stopped": fixed, "probe_tiebreak_by_name_proper": lexname}})
+	fixed, lexname, resetact := probeFixed(), probeLexName(), probeResetAct()
+	_ = enc.Encode(map[string]any{"stats": map[string]any{"probe_discard_pending_on_last_match_stopped": fixed, "probe_tiebreak_by_name_proper": lexname, "probe_deleted_tier_resets_default_action": resetact}})
 
 	for i := 0; i < *n; i++ {
 		u := &universe{tiers: tierNames, eps: endpoints()}
@@ -637,6 +692,13 @@ func main() {
 			if dir && r.intn(6) == 0 {
 				g.directed()
 			} else {
+				g.randomOp()
+			}
+		}
+		if sel >= 6 && sel < 9 {
+			stream += "+placeholder-tier-created"
+			g.directedTier()
+			for i := r.intn(3); i > 0; i-- {
 				g.randomOp()
 			}
 		}
@@ -704,13 +766,16 @@ func main() {
 			}
 			trace = append(trace, tl)
 		}
-		coq := fmt.Sprintf("mk_case (mkVariant %s %s) %s %s %s", cb(fixed), cb(lexname), lst(opsCoq), lst(outsCoq), lst(splitsCoq))
+		coq := fmt.Sprintf("mk_case (mkVariant3 %s %s %s) %s %s %s", cb(fixed), cb(lexname), cb(resetact), lst(opsCoq), lst(outsCoq), lst(splitsCoq))
 		tags := []string{stream}
 		if panicked {
 			tags = append(tags, "panic")
 		}
 		if g.startStopBetweenFlush {
 			tags = append(tags, "start+stop-between-flushes")
+		}
+		if g.tierPlaceholderToReal {
+			tags = append(tags, "placeholder-tier-became-real")
 		}
 		if g.polUpdInactive {
 			tags = append(tags, "policy-update-while-inactive")
